@@ -177,7 +177,7 @@ def run(shard, tier, seed):
 
     @hypothesis.seed(env.subseed(seed, ID, shard["i"]))
     @settings(max_examples=n, deadline=None, database=None, suppress_health_check=list(hypothesis.HealthCheck), phases=[hypothesis.Phase.generate])
-    @given(st.randoms(use_true_random=False), st.sampled_from(chainexec.CFGS), st.integers(5, 14 if tier == "quick" else 26), st.booleans(),
+    @given(st.randoms(use_true_random=True), st.sampled_from(chainexec.CFGS), st.integers(5, 14 if tier == "quick" else 26), st.booleans(),
            st.sampled_from(["store", "disk_interface"]), st.sampled_from(["obj", "bytes"]))
     def prop(rnd, cfg, nb, shared, via, form):
         opts = dict(p_fork=0.5, p_tx=0.8)
